@@ -35,6 +35,7 @@ CONSTANTS Deviations,      \* subset of AllDevs
           MaxNodes,
           Vals,            \* values every free dim is bound to
           Rich,            \* 0: Shape/Add/Abs only (vacuity cfg)  1: reduced menus (exhaustive runs)  2: full menus (simulation)
+                           \* 3: attribute sweep (SymShape_attrs.cfg)
           Chain            \* TRUE: node k+1 must consume the output of node k (exhaustive runs then reach depth 3)
 
 VARIABLES ins, nodes, meta, stage, pc, phase, cur, sshape, cval, symmap, dec, rep,
@@ -267,14 +268,27 @@ VecVals == {i \in IntVals : meta[i].rank = 1}
 MetaI(rank, len) == [k |-> "i", rank |-> rank, len |-> len]
 MetaF(rank) == [k |-> "f", rank |-> rank, len |-> -1]
 
-ShapeRanges == IF Rich = 0 THEN {<<0, 1>>} ELSE IF Rich = 1 THEN {<<0, NONE>>, <<0, 1>>, <<1, NONE>>}
-               ELSE {<<0, NONE>>, <<0, 1>>, <<1, NONE>>, <<-1, NONE>>, <<1, 2>>, <<0, -1>>}
-GatherIdx == IF Rich = 1 THEN {<<0>>, <<1>>, <<1, 0>>} ELSE {<<0>>, <<1>>, <<-1>>, <<2>>, <<1, 0>>, <<0, 0>>, <<-1, 0>>}
+\* Rich = 3 (attribute sweep): every legal attribute value, also where ONNX clamps - Shape start/end over
+\* [-(rank+2), rank+2] (Shape-15: out-of-range values are clamped to [0, rank]), every Gather index in
+\* [-len, len-1], Slice starts/ends below -dim, above dim and at INT64_MIN/MAX, negative steps
+OrdinaryShape == {<<0, NONE>>, <<0, 1>>, <<1, NONE>>}
+ShapeRanges == IF Rich = 0 THEN {<<0, 1>>} ELSE IF Rich = 1 THEN OrdinaryShape
+               ELSE {<<0, NONE>>, <<0, 1>>, <<1, NONE>>, <<-1, NONE>>, <<1, 2>>, <<0, -1>>, <<-5, NONE>>, <<-4, 1>>, <<0, 5>>, <<-2, 7>>}
+ShapeRangesFor(r) == IF Rich = 3 THEN {<<a, b>> : a \in (-(r + 2))..(r + 2), b \in ((-(r + 2))..(r + 2)) \cup {NONE}} ELSE ShapeRanges
+GatherIdx == IF Rich = 1 THEN {<<0>>, <<1>>, <<1, 0>>}
+             ELSE IF Rich = 3 THEN {<<i>> : i \in (-4)..3} \cup {<<-1, 0>>, <<-2, 1>>, <<0, -1, -3>>}
+             ELSE {<<0>>, <<1>>, <<-1>>, <<2>>, <<1, 0>>, <<0, 0>>, <<-1, 0>>, <<-2>>, <<-3, -1>>}
 ArithConsts == IF Rich = 0 THEN {<<-2>>} ELSE IF Rich = 1 THEN {<<-2>>, <<1>>} ELSE {<<-2>>, <<-1>>, <<1>>, <<0>>, <<2>>}
 ConcatConsts == IF Rich = 1 THEN {<<-1>>, <<1>>} ELSE {<<-1>>, <<1>>, <<0>>, <<2>>, <<1, -1>>}
 ReshapeConsts == IF Rich = 1 THEN {<<-1>>, <<0, -1>>} ELSE {<<-1>>, <<0, -1>>, <<-1, 0>>, <<0, 0>>, <<-1, 2>>, <<1, -1>>, <<2, -1, 1>>}
 ExpandConsts == IF Rich = 1 THEN {<<1>>, <<2, 1>>} ELSE {<<1>>, <<3>>, <<1, 1>>, <<2, 1>>, <<1, 3>>, <<2, 1, 1>>}
-SliceRanges == IF Rich = 1 THEN {<<0, BIG, 1>>, <<1, BIG, 1>>} ELSE {<<0, BIG, 1>>, <<1, BIG, 1>>, <<0, 1, 1>>, <<0, -1, 1>>, <<-1, BIG, 1>>, <<0, 2, 1>>, <<0, BIG, 2>>}
+SliceRanges == IF Rich = 1 THEN {<<0, BIG, 1>>, <<1, BIG, 1>>}
+               ELSE IF Rich = 3 THEN {<<a, b, 1>> : a \in {-BIG, -4, -3, -2, -1, 0, 1, 2, 3}, b \in {-BIG, -4, -3, -2, -1, 0, 1, 2, 3, 4, BIG}}
+                                     \* (not generated: a negative step with end = INT64_MAX - ORT reads that end as "unbounded"
+                                     \*  and returns the reversed axis, the ONNX text clamps it and returns nothing)
+                                     \cup {<<a, b, k>> : a \in {-1, 0, 2, BIG}, b \in {-BIG, -4, -1, 0}, k \in {-1, -2}}
+                                     \cup {<<a, b, 2>> : a \in {-1, 0, 2}, b \in {-4, -1, 0, BIG}}
+               ELSE {<<-3, BIG, 1>>, <<0, -4, 1>>, <<-1, -BIG, -1>>, <<BIG, -BIG, -1>>, <<0, BIG, 1>>, <<1, BIG, 1>>, <<0, 1, 1>>, <<0, -1, 1>>, <<-1, BIG, 1>>, <<0, 2, 1>>, <<0, BIG, 2>>}
 IntOperands == {R(i) : i \in IntVals}
 LenOf(o) == IF o.t = "c" THEN Len(o.v) ELSE meta[o.i].len
 RankOf(o) == IF o.t = "c" THEN 1 ELSE meta[o.i].rank
@@ -289,14 +303,17 @@ NPure == Cardinality({k \in 1..Len(nodes) : PureData(nodes[k], meta[V(k)])})
 Push(n, m) == /\ (Chain /\ nodes # <<>>) => \E j \in 1..Len(n.a) : n.a[j] = R(V(Len(nodes)))
               /\ Rich = 2 => /\ (nodes = <<>> => n.op = "Shape")
                              /\ (PureData(n, m) => NPure < 2)
+              \* attribute sweep: one swept Shape / data Slice, or an ordinary Shape followed by a swept Gather / Slice
+              /\ Rich = 3 => /\ (nodes = <<>> => n.op \in {"Shape", "Slice"})
+                             /\ (nodes # <<>> => nodes[1].op = "Shape" /\ nodes[1].p \in OrdinaryShape /\ n.op \in {"Gather", "Slice"})
               /\ nodes' = Append(nodes, n)
               /\ meta' = Append(meta, m)
               /\ UNCHANGED <<ins, stage, pc, phase, cur, sshape, cval, symmap, dec, rep, faithful>>
 Building == stage = "build" /\ Len(nodes) < MaxNodes
 
-GenShape == Building /\ \E x \in DataVals, r \in ShapeRanges :
+GenShape == Building /\ \E x \in DataVals : \E r \in ShapeRangesFor(meta[x].rank) :
               LET l == Len(PySlice([i \in 1..meta[x].rank |-> 0], r[1], r[2])) IN
-              l >= 1 /\ Push(Node("Shape", <<R(x)>>, r), MetaI(1, l))
+              (l >= 1 \/ Rich = 3) /\ Push(Node("Shape", <<R(x)>>, r), MetaI(1, l))
 GenSize == Building /\ Rich = 2 /\ \E x \in DataVals : Push(Node("Size", <<R(x)>>, <<>>), MetaI(0, 1))
 GenGather == Building /\ \E s \in VecVals, ix \in GatherIdx, sc \in {0, 1}, ax \in {0, 1} :
               /\ \A j \in 1..Len(ix) : ix[j] >= -meta[s].len /\ ix[j] < meta[s].len
@@ -343,7 +360,7 @@ GenConcatD == Building /\ \E x \in DataVals, y \in DataVals, ax \in {0, 1, -1} :
               /\ meta[x].rank = meta[y].rank /\ meta[x].rank >= 1 /\ ax < meta[x].rank
               /\ (ax = -1 => Rich = 2)
               /\ Push(Node("Concat", <<R(x), R(y)>>, <<ax>>), meta[x])
-GenSliceD == Building /\ \E x \in FocusData, ax \in {0, 1}, r \in SliceRanges :
+GenSliceD == Building /\ \E x \in FocusData, ax \in (IF Rich = 3 THEN {0, 1, -1} ELSE {0, 1}), r \in SliceRanges :
               /\ ax < meta[x].rank
               /\ Push(Node("Slice", <<R(x)>>, <<ax>> \o r), meta[x])
 
@@ -595,6 +612,7 @@ MenuSim == MenuQuick \cup MenuTwo \cup
             << <<N, M>>, <<N, M>> >>, << <<1, N>>, <<M, 1>> >>, << <<U1, U2, 2>> >>, << <<N, N>> >>, << <<0, N>>, <<M, N>> >>}
 MenuThorough == MenuQuick \cup MenuTwo \cup {<< <<U1, U2>> >>, << <<2, 3>> >>, << <<N, 4>> >>}
 MenuChain == {<< <<N>> >>}
+MenuAttr == {<< <<N, 3, 4>> >>, << <<N, M>> >>, << <<N>> >>}
 MenuChainT == {<< <<N>> >>, << <<N, 0>> >>, << <<N, M>> >>, << <<U1, U2>> >>}
 ValsStd == {0, 1, 2, 3, 7}
 =============================================================================
